@@ -158,6 +158,7 @@ class RefServer:
     # ---- semantics -----------------------------------------------------------------------------
     def execute(self, req, cid):
         s = self.store
+        s._expire()          # a delayed flush whose deadline has passed takes effect before anything else (AbsMap.settle)
         kind = req[0]
         if kind == "baddata":
             return b"CLIENT_ERROR bad data chunk\r\n"
